@@ -5,14 +5,11 @@
 //@ def thorough STRN=12
 //@ enforce XMLString_compareString
 //@ enforce XMLString_compareNString
-//@ enforce XMLString_compareIStringASCII
-//@ enforce XMLString_equals
-//@ enforce XMLString_equalsN
 //@ replace XMLString_stringLen
 //@ entry h_str_cmp
 //@ note P: iterations unbounded through loop contracts; string buffers bounded by -DSTRN, END-aligned at the own NUL (compareString, equals, ...ASCII) or at the last unit the comparison may look at (compareNString, equalsN)
 //@ note functional spec by witness: the harness picks KW and assumes (finite conjunction over the STRN elements) that the strings agree and have not ended before KW and differ or end at KW; every pair of strings has such a KW, so the postcondition "result = difference of the units at KW" is the complete spec (sign = first differing unit)
-//@ note compareIString / compareNIString only forward to the transcoding service (virtual, ICU build): not in the subset; compareIStringASCII is covered here
+//@ note compareIString / compareNIString only forward to the transcoding service (virtual, ICU build): not in the subset; compareIStringASCII is covered in str_icmp_w, equals/equalsN in str_equals
 #define VERIF_DEFINE_GHOSTS
 #include "verif_prelude.h"
 //@ include str_common.inc
@@ -58,67 +55,15 @@ __CPROVER_loop_invariant(PTR_IN(psz1, str1, KW) && PTR_IN(psz2, str2, KW) && PID
 __CPROVER_decreases(KW - curCount)
 @*/
 
-/*@extract src/xercesc/util/XMLString.cpp XMLString::compareIStringASCII
-call XMLString::stringLen => XMLString_stringLen
-sub (?<![\w\(])int\(([^()]*)\) => ((int)(\1))
-contract
-__CPROVER_requires(G < STRN && KW < STRN && LEN1 < STRN && LEN2 < STRN && P1 == str1 && P2 == str2)
-__CPROVER_requires(str1 == 0 || STR_IS(str1, LEN1))
-__CPROVER_requires(str2 == 0 || (STR_IS(str2, LEN2) && str2 != str1))
-__CPROVER_requires((str1 != 0 && str2 != 0) ==> (KW <= LEN1 && KW <= LEN2 && EQ_BEFORE_F(str1, str2, KW, FOLD_ASCII) && (FOLD_ASCII(str1[KW]) != FOLD_ASCII(str2[KW]) || str1[KW] == 0)))
-__CPROVER_assigns()
-__CPROVER_ensures((str1 != 0 && str2 != 0) ==> __CPROVER_return_value == (int)FOLD_ASCII(str1[KW]) - (int)FOLD_ASCII(str2[KW]))
-__CPROVER_ensures((str1 == 0 && str2 != 0) ==> __CPROVER_return_value == 0 - (int)LEN2)
-__CPROVER_ensures((str1 != 0 && str2 == 0) ==> __CPROVER_return_value == (int)LEN1)
-__CPROVER_ensures((str1 == 0 && str2 == 0) ==> __CPROVER_return_value == 0)
-loop 1
-__CPROVER_assigns(psz1, psz2, ch1, ch2)
-__CPROVER_loop_invariant(PTR_IN(psz1, str1, KW) && PTR_IN(psz2, str2, KW) && PIDX(psz1, str1) == PIDX(psz2, str2))
-__CPROVER_decreases(KW - PIDX(psz1, str1))
-@*/
 
-/*@extract src/xercesc/util/XMLString.hpp XMLString::equals
-params const XMLCh* str1 , const XMLCh* str2
-contract
-__CPROVER_requires(KW < STRN && LEN1 < STRN && LEN2 < STRN && P1 == str1 && P2 == str2)
-__CPROVER_requires(str1 == 0 || STR_OK(str1, LEN1))
-__CPROVER_requires(str2 == 0 || STR_OK(str2, LEN2))
-__CPROVER_requires((str1 != 0 && str2 != 0) ==> (KW <= LEN1 && KW <= LEN2 && EQ_BEFORE(str1, str2, KW) && (str1[KW] != str2[KW] || str1[KW] == 0)))
-__CPROVER_assigns()
-__CPROVER_ensures((P1 != 0 && P2 != 0) ==> __CPROVER_return_value == (P1[KW] == P2[KW]))
-/* a null pointer equals the empty string */
-__CPROVER_ensures((P1 == 0 || P2 == 0) ==> __CPROVER_return_value == ((P1 == 0 || P1[0] == 0) && (P2 == 0 || P2[0] == 0)))
-loop 1
-__CPROVER_assigns(str1, str2)
-__CPROVER_loop_invariant(PTR_IN(str1, P1, KW) && PTR_IN(str2, P2, KW) && PIDX(str1, P1) == PIDX(str2, P2))
-__CPROVER_decreases(KW - PIDX(str1, P1))
-@*/
 
-/*@extract src/xercesc/util/XMLString.hpp XMLString::equalsN
-params const XMLCh* str1, const XMLCh* str2, XMLSize_t n
-contract
-__CPROVER_requires(KW < STRN && NW == n && KW <= n && P1 == str1 && P2 == str2)
-__CPROVER_requires(str1 == 0 || __CPROVER_r_ok(str1, ((KW == n) ? KW : KW + 1) * sizeof(XMLCh)))
-__CPROVER_requires(str2 == 0 || __CPROVER_r_ok(str2, ((KW == n) ? KW : KW + 1) * sizeof(XMLCh)))
-__CPROVER_requires((str1 != 0 && str2 != 0) ==> (EQ_BEFORE(str1, str2, KW) && (KW == n || str1[KW] != str2[KW] || str1[KW] == 0)))
-/* with a null argument the other one is looked at only at index 0 */
-__CPROVER_requires((str1 == 0 || str2 == 0) ==> (n == 0 || KW >= 1 || KW < n))
-__CPROVER_assigns()
-__CPROVER_ensures((P1 != 0 && P2 != 0) ==> __CPROVER_return_value == (KW == NW || P1[KW] == P2[KW]))
-__CPROVER_ensures(((P1 == 0 || P2 == 0) && NW != 0 && P1 != P2) ==> __CPROVER_return_value == ((P1 == 0 || P1[0] == 0) && (P2 == 0 || P2[0] == 0)))
-__CPROVER_ensures((NW == 0 || P1 == P2) ==> __CPROVER_return_value)
-loop 1
-__CPROVER_assigns(str1, str2, n)
-__CPROVER_loop_invariant(PTR_IN(str1, P1, KW) && PTR_IN(str2, P2, KW) && PIDX(str1, P1) == PIDX(str2, P2) && n <= NW && PIDX(str1, P1) == NW - n)
-__CPROVER_decreases(n)
-@*/
 
 struct { XMLCh a[STRN]; } S1, S2;
 void h_str_cmp(void)
 {
-  XMLSize_t l1, l2, maxChars; _Bool null1, null2, same;
+  XMLSize_t l1, l2, maxChars; _Bool null1, null2;
   VERIF_INPUT(S1); VERIF_INPUT(S2); VERIF_INPUT(G); VERIF_INPUT(KW); VERIF_INPUT(l1); VERIF_INPUT(l2); VERIF_INPUT(maxChars);
-  VERIF_INPUT(null1); VERIF_INPUT(null2); VERIF_INPUT(same);
+  VERIF_INPUT(null1); VERIF_INPUT(null2);
   VERIF_ASSUME(l1 < STRN && l2 < STRN);
   const XMLCh *s1 = null1 ? (const XMLCh *)0 : S1.a + (STRN - (l1 + 1));
   const XMLCh *s2 = null2 ? (const XMLCh *)0 : S2.a + (STRN - (l2 + 1));
@@ -130,13 +75,6 @@ void h_str_cmp(void)
   if (null1 && !null2) VERIF_CANARY("compareString: null first argument reachable");
   if (!null1 && !null2 && r1 == 0) VERIF_CANARY("compareString: equal strings reachable");
 
-  int r2 = XMLString_compareIStringASCII(s1, s2);
-  VERIF_CANARY("after compareIStringASCII");
-  if (!null1 && !null2 && r2 == 0 && r1 != 0) VERIF_CANARY("compareIStringASCII: strings differing in case only reachable");
-
-  bool e1 = XMLString_equals(same ? s1 : s2, s1);
-  VERIF_CANARY("after equals");
-
   /* compareNString / equalsN: buffers end where the comparison may stop (KW units, or KW+1 when KW < maxChars) */
   VERIF_ASSUME(KW <= maxChars);
   XMLSize_t need = (KW == maxChars) ? KW : KW + 1;
@@ -144,8 +82,4 @@ void h_str_cmp(void)
   int r3 = XMLString_compareNString(t1, t2, maxChars);
   VERIF_CANARY("after compareNString");
   if (KW == maxChars && KW > 0) VERIF_CANARY("compareNString: count exhausted reachable");
-
-  P1 = null1 ? (const XMLCh *)0 : t1; P2 = null2 ? (const XMLCh *)0 : t2; NW = maxChars;
-  bool e2 = XMLString_equalsN(P1, P2, maxChars);
-  VERIF_CANARY("after equalsN");
 }
